@@ -33,6 +33,7 @@ type SeqProfile struct {
 	PDelAll   float64 // a body step narrows the selection with a filter and deletes all of it (txn.DeleteAll)
 	PDropCol  float64 // a schema step may drop a data column (and later create it again)
 	Wide      bool    // row accesses write most of the columns, not a few
+	PSchemaIn float64 // between two operations of an open transaction an index is created or dropped
 	PBulkDel  float64 // a step deletes a run of value-less prologue rows in block 0 (Count drops below the highest offset's block)
 	SortFirst bool    // create the sorted indexes before any data
 	SortAt    int     // (when not SortFirst) the step at which the sorted indexes are created over the data that exists by then
@@ -140,6 +141,37 @@ func (g *seqGen) dump() {
 	}
 }
 
+// indexStep creates one of the profile's bitmap indexes, or drops it if it exists (on the primary and its copies). It is
+// also called in the middle of an open transaction (between two of its operations, no latch held): an index created then
+// is back-filled from the committed values and must see what that transaction commits later.
+func (g *seqGen) indexStep() {
+	c := g.P
+	if len(g.p.Idx) == 0 {
+		return
+	}
+	x := g.p.Idx[g.rnd.Intn(len(g.p.Idx))]
+	if _, ok := c.Desc(x.Col); !ok {
+		return
+	}
+	all := []*Coll{g.P}
+	for _, r := range []*Coll{g.R, g.R2} {
+		if r != nil {
+			all = append(all, r)
+		}
+	}
+	for _, y := range c.Idx {
+		if y.Name == x.Name {
+			for _, c := range all {
+				c.DropIndex(x.Name)
+			}
+			return
+		}
+	}
+	for _, c := range all {
+		c.CreateIndex(x)
+	}
+}
+
 // nwrites: wide profiles write most columns of the row in one go
 func (g *seqGen) nwrites(n int) int {
 	if g.p.Wide && g.rnd.Intn(2) == 0 {
@@ -221,20 +253,7 @@ func (g *seqGen) schemaStep() {
 			}
 		}
 	case 1: // index create / drop
-		if len(g.p.Idx) == 0 {
-			return
-		}
-		x := g.p.Idx[g.rnd.Intn(len(g.p.Idx))]
-		if _, ok := c.Desc(x.Col); !ok {
-			return
-		}
-		for _, y := range c.Idx {
-			if y.Name == x.Name {
-				both(func(c *Coll) { c.DropIndex(x.Name) })
-				return
-			}
-		}
-		both(func(c *Coll) { c.CreateIndex(x) })
+		g.indexStep()
 	case 2: // trigger create / drop
 		if len(g.p.Trigs) == 0 {
 			return
@@ -525,6 +544,9 @@ func RunSeq(seed int64, p SeqProfile) (out []Ev) {
 			for i := 0; i < nbody; i++ {
 				if g.rnd.Float64() < p.PObserve {
 					g.P.Dump(g.rnd.Intn(3))
+				}
+				if g.rnd.Float64() < p.PSchemaIn {
+					g.indexStep()
 				}
 				if g.rnd.Float64() < p.PDelAll {
 					// With(column or index) leaves only rows holding a value (never a filler row), then DeleteAll
